@@ -200,6 +200,9 @@ def clause3(P, res):
 
 
 SLOT_ALIASES = {"time_to_live": {"ttl", "time_to_live", "global_ttl"}, "time_to_idle": {"tti", "time_to_idle"}}
+# relative durations must not be handed to parameters that expect an absolute deadline (and vice versa)
+RELATIVE_SRC = re.compile(r"(^|\.)(ttl_remaining|ttl|time_to_live|remaining)(@Some\.0)?$")
+ABSOLUTE_PARAM = re.compile(r"^(expires_at|deadline|expiry)$")
 
 
 def clause4(P, res):
@@ -216,6 +219,11 @@ def clause4(P, res):
             for i, a in enumerate(e.args):
                 p = b.path_of_operand(a)
                 last = p.rsplit(".", 1)[-1]
+                if i + 1 <= tgt.argc and RELATIVE_SRC.search(p) and ABSOLUTE_PARAM.match(tgt.local_name(i + 1) or ""):
+                    n += 1
+                    res.violated(rid, f"{b.id}->{tgt.name}:arg{i}:relative-as-absolute", f"`{p}` (a remaining lifetime) is passed at {e.loc} as `{tgt.local_name(i + 1)}` of "
+                                 f"{tgt.name}, which expects an absolute deadline: restored entries expire at once or at an arbitrary time", where=e.loc)
+                    continue
                 if last not in SLOT_ALIASES or i + 1 > tgt.argc:
                     continue
                 pname = tgt.local_name(i + 1)
